@@ -145,7 +145,7 @@ mod dtrait {
         Val::new(format!("{name}({a})[{}]", parts.join(",")))
     }
 
-    #[unimock(api=DMock, unmock_with=[real_r0, _, real_u2(b, a), real_u3(self, b, a), _, _, _, _, _, _, real_mm, _, _, _, _, _], const K: u8 = 1;)]
+    #[unimock(api=DMock, unmock_with=[real_r0, _, real_u2(b, a), real_u3(self, b, a), _, _, _, _, _, _, real_mm, _, _, _, _, _, _, _], const K: u8 = 1;)]
     pub trait D {
         const K: u8 = 2;
         fn r0(&self, a: u8) -> Val;
@@ -184,6 +184,16 @@ mod dtrait {
         fn r_arc(self: Arc<Self>, a: u8) -> Val;
         fn p_arc2(self: Arc<Self>, a: u8) -> Val {
             Val::new(format!("dflt30({a})[{}]", self.r_arc(a).take()))
+        }
+        /// the same pair with by-value receivers: the instance travels into the helper and back (from_delegator)
+        fn r_val(self, a: u8) -> Val
+        where
+            Self: Sized;
+        fn p_val2(self, a: u8) -> Val
+        where
+            Self: Sized,
+        {
+            Val::new(format!("dflt34({a})[{}]", self.r_val(a).take()))
         }
         /// skipped by the macro, but occupies an unmock_with slot (last, so that nothing in this trait
         /// depends on how slots after a skipped function are counted; trait T covers that)
